@@ -176,7 +176,7 @@ Section Round.
     flat_map ob_hops L = map Z.of_nat (somes asg)
     /\ forallb (fun o => Nat.leb (length (ob_hops o)) 1) L = true
     /\ length L = length cs /\ length mobs = length cs
-    /\ map ob_value (filter participates L) = map value_of (map (fun o => client_value (co_vals o)) (participants mobs))
+    /\ flat_map ob_meas (filter participates L) = measured (map (fun o => client_value (co_vals o)) (participants mobs))
     /\ length (filter participates L) = length (somes asg).
   Proof.
     induction cs as [|s r IH]; intros [|h hs] [|p asg] [|rs resets] mss vss H1 H2 H3; cbn in H1, H2, H3; try lia.
@@ -185,11 +185,11 @@ Section Round.
       cbv zeta. cbn [run_clients to_cobs_list flat_map forallb length filter].
       unfold run_client. destruct p as [q|].
       + destruct (exch_loop _ _ _ _ _) as [[s1 rl] dl].
-        unfold participants. cbn [to_cobs ob_hops co_path participates filter is_some map somes app length Nat.leb andb].
+        unfold participants. cbn [to_cobs ob_hops co_path participates filter is_some map somes app length Nat.leb andb flat_map].
         fold (participants (run_clients fps r asg resets (tl mss) (tl vss))).
         rewrite I1, I2, I3, I4, I5, I6. repeat split; try reflexivity.
-        f_equal. unfold ob_value, value_of, client_value, to_cobs. cbn [ob_vals co_vals]. destruct (rev dl); reflexivity.
-      + unfold participants. cbn [to_cobs ob_hops co_path participates filter is_some map somes app length Nat.leb andb].
+        unfold measured. cbn [flat_map]. f_equal. unfold ob_meas, client_value, to_cobs. cbn [ob_vals co_vals]. destruct (rev dl); reflexivity.
+      + unfold participants. cbn [to_cobs ob_hops co_path participates filter is_some map somes app length Nat.leb andb flat_map].
         fold (participants (run_clients fps r asg resets (tl mss) (tl vss))).
         rewrite I1, I2, I3, I4, I5, I6. repeat split; reflexivity.
   Qed.
@@ -203,17 +203,18 @@ Proof.
   specialize (H p Hp). apply andb_true_iff. split; [apply Z.leb_le; lia|apply Z.ltb_lt; lia].
 Qed.
 
-(* Main theorem: the oracle accepts every round the model can produce. *)
-Theorem model_round_ok fps cs hasfs d tape mss vss obs off rest :
+(* the clauses of the oracle for a round in which somebody takes part *)
+Lemma round_clauses fps cs hasfs c d tape mss vss asg resets rest' cls off :
   length hasfs = length cs -> Z.of_nat (length fps) <= max_i64 -> words tape -> word d ->
-  run_round fps cs d tape mss vss = ROk obs off rest ->
-  C15_round_ok fps (to_cobs_list hasfs cs obs) 0 off = true.
+  assign fps cs c d tape = AOk asg resets rest' ->
+  match round_offset (map (fun o => client_value (co_vals o)) (participants (run_clients fps cs asg resets mss vss))) with
+  | Some m => cls = 0 /\ off = m
+  | None => cls = 4
+  end ->
+  C15_round_ok fps (to_cobs_list hasfs cs (run_clients fps cs asg resets mss vss)) cls off = true.
 Proof.
-  intros Hh Hmax Hw Hd. unfold run_round.
-  destruct (assign fps cs false d tape) as [asg resets rest'| | | |] eqn:Ea; try discriminate.
+  intros Hh Hmax Hw Hd Ea Hres.
   destruct (assign_ok_facts _ _ _ _ _ _ _ _ Hmax Hw Hd Ea) as [[[Hl1 Hl2] Hdist Hoff Hcnt Hne _] _].
-  destruct (round_offset _) as [m|] eqn:Ero; [|discriminate].
-  intros H. inversion H; subst obs off rest'. clear H.
   destruct (run_clients_cobs fps cs hasfs asg resets mss vss Hl1 Hl2 Hh) as [I1 [I2 [I3 [I4 [I5 I6]]]]].
   cbv zeta in I1, I2, I3, I4, I5, I6.
   unfold C15_round_ok. rewrite I1, I2, I3, I5, I6.
@@ -226,14 +227,47 @@ Proof.
                   (keeps (to_cobs_list hasfs cs (run_clients fps cs asg resets mss vss)) fps) = true).
   { rewrite keeps_to_cobs by (auto; lia).
     unfold assign in Ea. destruct (sticky fps cs (seq 0 (length fps))) as [sps ps1] eqn:Es.
-    destruct (sample _ _ false d tape) as [[[n picks] rest2]| | |]; try discriminate.
+    destruct (sample _ _ c d tape) as [[[n picks] rest2]| | |]; try discriminate.
     destruct (_ =? 0); [discriminate|]. inversion Ea; subst asg resets.
     rewrite (keeps_sticky fps cs (seq 0 (length fps)) fps sps ps1); [|rewrite map_fp_seq; apply Permutation_refl|exact Es].
     apply all2_sticky; [exact Hh|]. eapply sticky_forall2. exact Es. }
   rewrite Hst. cbn [andb].
   destruct (Z.min (Z.of_nat (length cs)) (Z.of_nat (length fps)) =? 0) eqn:E0; [apply Z.eqb_eq in E0; lia|].
-  rewrite Z.eqb_refl. cbn [andb].
-  rewrite round_offset_values in Ero. rewrite Ero. apply Z.eqb_refl.
+  unfold round_offset in Hres.
+  destruct (ftm _) as [m|]; [destruct Hres as [-> ->]; rewrite !Z.eqb_refl; reflexivity|subst cls; reflexivity].
+Qed.
+
+(* Main theorem: the oracle accepts every round the model can produce. *)
+Theorem model_round_ok fps cs hasfs d tape mss vss obs off rest :
+  length hasfs = length cs -> Z.of_nat (length fps) <= max_i64 -> words tape -> word d ->
+  run_round fps cs d tape mss vss = ROk obs off rest ->
+  C15_round_ok fps (to_cobs_list hasfs cs obs) 0 off = true.
+Proof.
+  intros Hh Hmax Hw Hd. unfold run_round.
+  destruct (assign fps cs false d tape) as [asg resets rest'| | | |] eqn:Ea; try discriminate.
+  destruct (round_offset _) as [m|] eqn:Ero; [|discriminate].
+  intros H. inversion H; subst obs off rest'. clear H.
+  eapply round_clauses; eauto. rewrite Ero. split; reflexivity.
+Qed.
+
+(* ... the round that reports errNoMeasurement (no participant produced a measurement) ... *)
+Theorem model_nomeas_ok fps cs hasfs d tape mss vss obs rest :
+  length hasfs = length cs -> Z.of_nat (length fps) <= max_i64 -> words tape -> word d ->
+  run_round fps cs d tape mss vss = RNoMeas obs rest ->
+  C15_round_ok fps (to_cobs_list hasfs cs obs) 4 0 = true
+  /\ Forall (fun o => co_vals o = []) (participants obs).
+Proof.
+  intros Hh Hmax Hw Hd. unfold run_round.
+  destruct (assign fps cs false d tape) as [asg resets rest'| | | |] eqn:Ea; try discriminate.
+  destruct (round_offset _) as [m|] eqn:Ero; [discriminate|].
+  intros H. inversion H; subst obs rest'. clear H. split.
+  - eapply round_clauses; eauto. rewrite Ero. reflexivity.
+  - apply round_offset_none in Ero. unfold measured in Ero.
+    induction (participants (run_clients fps cs asg resets mss vss)) as [|o r IH]; [constructor|].
+    cbn [map flat_map] in Ero. apply app_eq_nil in Ero. destruct Ero as [E1 E2].
+    constructor; [|apply IH; exact E2].
+    unfold client_value in E1. destruct (co_vals o) as [|v vs] using rev_ind; [reflexivity|].
+    rewrite rev_app_distr in E1. cbn in E1. discriminate.
 Qed.
 
 (* ... and the round that reports errNoPath *)
